@@ -14,8 +14,9 @@ jobs with that key that are not yet being processed."
 
 For the legacy scheduler all clauses but one hold at full strength (at most once even
 unconditionally: there is no recapture).  The crash-recovery / at-least-once clause is FALSE:
-`legacy_crash_recovery_full_fails`, `legacy_crashed_capture_never_runs`,
-`legacy_bad_target_strands_batch`.
+`legacy_crash_recovery_full_fails`, `legacy_crashed_capture_never_runs` (a capturer that dies).
+The second cause found in the first round (a call captured in one batch with an un-preparable call)
+is fixed in the code: `legacy_bad_target_spares_batch`.
 -/
 import Mistral.Lemmas.SchedLegacy
 import Mistral.Gen.SchedLegacyFacts
@@ -155,11 +156,14 @@ example : lInvCount (lRun none (lInit 2)
 
 /-! ### "invoked at least once": never lost from the store before it was invoked -/
 
-/-- a committed call whose row has left the store has been invoked (delete only after invoke) -/
+/-- a committed call whose row has left the store has been invoked (delete only after invoke) —
+    unless it cannot be prepared (`bad`: logged and dropped with its batch, by design) -/
 theorem legacy_committed_never_lost (b : Option Nat) (n : Nat) (steps : List LStep) (j : Nat) (r : LRow)
     (hr : (lRun b (lInit n) steps).rows[j]? = some r) (hv : r.vis = .deleted) :
-    ∃ t i, (j, t, i) ∈ (lRun b (lInit n) steps).log :=
-  (lSafe_reachable b n steps).del j r hr hv
+    (∃ t i, (j, t, i) ∈ (lRun b (lInit n) steps).log) ∨ r.bad = true := by
+  rcases (lSafe_reachable b n steps).del j r hr hv with h | ⟨r', hr', hb⟩
+  · exact Or.inl h
+  · rw [hr] at hr'; simp at hr'; subst hr'; exact Or.inr hb
 
 theorem legacy_committed_stays (b : Option Nat) (s : LState) (steps : List LStep) (j : Nat) (r : LRow)
     (hr : s.rows[j]? = some r) (hv : r.vis = .committed) :
@@ -174,18 +178,17 @@ example : (lRun none (lInit 1)
 /-! ### "If the scheduler that captured a job dies, another instance runs it …" — FALSE for the
     legacy scheduler -/
 
-/-- Pick-up.  In ANY state: a committed, due call whose flag is clear is captured and queued by
-    a poll (select, capture) of any live idle instance (no batch limit).  This is the restriction
-    of the crash-recovery clause that holds: `processing = false`, i.e. no instance died (or is
-    stalled) between its capture and its delete of this call, and no call captured together with
-    it is un-preparable (`lAnyBad … = false`, decidable). -/
+/-- Pick-up.  In ANY state: a committed, due, preparable call whose flag is clear is captured and
+    queued for invocation by a poll (select, capture) of any live idle instance (no batch limit) —
+    whatever else is captured with it.  This is the restriction of the crash-recovery clause that
+    holds: `processing = false`, i.e. no instance died (or is stalled) between its capture and its
+    delete of this call. -/
 theorem legacy_crash_recovery_partial (s : LState) (i j : Nat) (r : LRow)
     (hi : s.insts[i]? = some (true, .idle))
     (hr : s.rows[j]? = some r) (hv : r.vis = .committed) (hdue : r.executeAt ≤ s.clock)
-    (hp : r.processing = false)
-    (hgood : lAnyBad s.rows (lCaptureAll (lSelect none s.clock s.rows) s.rows).2 = false) :
+    (hp : r.processing = false) (hgood : r.bad = false) :
     (j, s.clock, i) ∈ (lRun none s [.select i, .capture i]).caps ∧
-      ∃ ids, (lRun none s [.select i, .capture i]).insts[i]? = some (true, .busy ids ids) ∧ j ∈ ids := by
+      ∃ ids todo, (lRun none s [.select i, .capture i]).insts[i]? = some (true, .busy ids todo) ∧ j ∈ todo := by
   have hel : lEligible s.clock r = true := by
     simp [lEligible, hv, hp]; omega
   have hmem := mem_lSelect_nobatch hr hel
@@ -197,7 +200,9 @@ theorem legacy_crash_recovery_partial (s : LState) (i j : Nat) (r : LRow)
   refine ⟨?_, ?_⟩
   · simp only [List.mem_append, List.mem_reverse, List.mem_map]
     exact Or.inl ⟨j, hq, rfl⟩
-  · exact ⟨_, by simp [hne, hgood], hq⟩
+  · exact ⟨(lCaptureAll (lSelect none s.clock s.rows) s.rows).2,
+      lGood s.rows (lCaptureAll (lSelect none s.clock s.rows) s.rows).2, by simp [hne],
+      List.mem_filter.mpr ⟨hq, by simp [lIsBad, hr, hgood]⟩⟩
 
 -- non-vacuity of the partial statement: instance 0 died BEFORE capturing, instance 1 picks the call up
 example : (0, 1, 1) ∈ (lRun none (lRun none (lInit 2) [.schedule 1 7 0, .commit 0, .select 0, .crash 0, .tick 1])
@@ -219,13 +224,13 @@ theorem legacy_crash_recovery_full_fails :
         (lRun none (lInit n) steps).insts[i]? = some (true, .idle) →
         (lRun none (lInit n) steps).rows[j]? = some r → r.vis = .committed →
         r.executeAt ≤ (lRun none (lInit n) steps).clock → lInvCount (lRun none (lInit n) steps) j = 0 →
-        ∃ ids, (lRun none (lRun none (lInit n) steps) [.select i, .capture i]).insts[i]? = some (true, .busy ids ids) ∧
-          j ∈ ids) := by
+        ∃ ids todo, (lRun none (lRun none (lInit n) steps) [.select i, .capture i]).insts[i]? =
+          some (true, .busy ids todo) ∧ j ∈ todo) := by
   intro h
   have h1 := h 2 [.schedule 0 7 0, .commit 0, .select 0, .capture 0, .crash 0, .tick 100] 1 0
     { executeAt := 0, processing := true, key := 7, vis := .committed }
     (by decide) (by decide) (by decide) (by decide) (by decide)
-  obtain ⟨ids, h2, _⟩ := h1
+  obtain ⟨ids, todo, h2, _⟩ := h1
   have h3 : (lRun none (lRun none (lInit 2) [.schedule 0 7 0, .commit 0, .select 0, .capture 0, .crash 0, .tick 100])
       [.select 1, .capture 1]).insts[1]? = some (true, .idle) := by decide
   rw [h3] at h2
@@ -259,25 +264,60 @@ theorem legacy_crashed_capture_never_runs (b : Option Nat) (n : Nat) (pre rest :
   simp only [lRun]
   rw [(lStuck_run b j rest _ hst).2, h0]
 
-/-- Second cause, no crash needed: when a captured call cannot be prepared (`_prepare_calls` raises
-    after `_capture_calls` has committed the flags), EVERY call captured in the same batch is never
-    invoked, whatever happens afterwards — the instance is alive and keeps polling. -/
-theorem legacy_bad_target_strands_batch (b : Option Nat) (n : Nat) (pre rest : List LStep) (i j : Nat)
-    (cands : List Nat)
+/-- FIXED (`fix: a delayed call that can't be prepared doesn't strand the rest of its batch`; the
+    former `legacy_bad_target_strands_batch`, now a regression): a captured call that cannot be
+    prepared is logged and skipped by `_prepare_calls`; every OTHER call captured in the same batch is
+    invoked by the `_invoke_calls` loop of that very iteration.  For all histories `pre`: the capture
+    by instance `i` followed by the invoke steps of the batch puts every preparable captured call into
+    the log, at the time of the capture, by `i`. -/
+theorem legacy_bad_target_spares_batch (b : Option Nat) (n : Nat) (pre : List LStep) (i j : Nat)
+    (cands : List Nat) (r : LRow)
     (hi : (lRun b (lInit n) pre).insts[i]? = some (true, .selected cands))
     (hj : j ∈ (lCaptureAll cands (lRun b (lInit n) pre).rows).2)
-    (hbad : lAnyBad (lRun b (lInit n) pre).rows (lCaptureAll cands (lRun b (lInit n) pre).rows).2 = true) :
-    lInvCount (lRun b (lInit n) (pre ++ .capture i :: rest)) j = 0 := by
-  obtain ⟨hst, h0⟩ := lBadBatch_strands b (lCnt_reachable b n pre) hi hj hbad
+    (hr : (lRun b (lInit n) pre).rows[j]? = some r) (hgood : r.bad = false) :
+    (j, (lRun b (lInit n) pre).clock, i) ∈
+      (lRun b (lInit n) (pre ++ .capture i ::
+        List.replicate (lGood (lRun b (lInit n) pre).rows (lCaptureAll cands (lRun b (lInit n) pre).rows).2).length
+          (.invoke i))).log := by
+  have hne : (lCaptureAll cands (lRun b (lInit n) pre).rows).2 ≠ [] := by
+    intro h; rw [h] at hj; simp at hj
+  have hlt : i < (lRun b (lInit n) pre).insts.length := (List.getElem?_eq_some_iff.mp hi).1
+  have hjt : j ∈ lGood (lRun b (lInit n) pre).rows (lCaptureAll cands (lRun b (lInit n) pre).rows).2 :=
+    List.mem_filter.mpr ⟨hj, by simp [lIsBad, hr, hgood]⟩
   rw [lRun_append]
   simp only [lRun]
-  rw [(lStuck_run b j rest _ hst).2, h0]
+  have hstep : lStep b (lRun b (lInit n) pre) (.capture i) =
+      { (lRun b (lInit n) pre) with
+        rows := (lCaptureAll cands (lRun b (lInit n) pre).rows).1
+        caps := ((lCaptureAll cands (lRun b (lInit n) pre).rows).2.map fun j =>
+          (j, (lRun b (lInit n) pre).clock, i)).reverse ++ (lRun b (lInit n) pre).caps
+        insts := (lRun b (lInit n) pre).insts.set i (true, .busy (lCaptureAll cands (lRun b (lInit n) pre).rows).2
+          (lGood (lRun b (lInit n) pre).rows (lCaptureAll cands (lRun b (lInit n) pre).rows).2)) } := by
+    simp [lStep, hi, hne]
+  rw [hstep]
+  have hi' : ({ (lRun b (lInit n) pre) with
+        rows := (lCaptureAll cands (lRun b (lInit n) pre).rows).1
+        caps := ((lCaptureAll cands (lRun b (lInit n) pre).rows).2.map fun j =>
+          (j, (lRun b (lInit n) pre).clock, i)).reverse ++ (lRun b (lInit n) pre).caps
+        insts := (lRun b (lInit n) pre).insts.set i (true, .busy (lCaptureAll cands (lRun b (lInit n) pre).rows).2
+          (lGood (lRun b (lInit n) pre).rows (lCaptureAll cands (lRun b (lInit n) pre).rows).2)) } : LState).insts[i]? =
+      some (true, .busy (lCaptureAll cands (lRun b (lInit n) pre).rows).2
+          (lGood (lRun b (lInit n) pre).rows (lCaptureAll cands (lRun b (lInit n) pre).rows).2)) :=
+    List.getElem?_set_self hlt
+  obtain ⟨h1, _⟩ := lInvoke_all b i _ _ _ hi'
+  rw [h1]
+  simp only [List.mem_append, List.mem_reverse, List.mem_map]
+  exact Or.inl ⟨j, hjt, rfl⟩
 
--- non-vacuity: a valid call (0) and an un-preparable one (1) selected together
-example : (lRun none (lInit 1) [.schedule 0 7 0, .scheduleBad 0 7 0, .commit 0, .select 0]).insts[0]? =
-      some (true, .selected [1, 0]) ∧
-    lAnyBad (lRun none (lInit 1) [.schedule 0 7 0, .scheduleBad 0 7 0, .commit 0, .select 0]).rows
-      (lCaptureAll [1, 0] (lRun none (lInit 1) [.schedule 0 7 0, .scheduleBad 0 7 0, .commit 0, .select 0]).rows).2 = true := by
+-- regression (the former witness of `legacy_bad_target_strands_batch`): a valid call (0) and an
+-- un-preparable one (1) are captured together; the valid call is invoked, both rows are deleted,
+-- the un-preparable call is never invoked
+example : (lRun none (lInit 1) [.schedule 0 7 0, .scheduleBad 0 7 0, .commit 0, .select 0, .capture 0]).insts[0]? =
+      some (true, .busy [1, 0] [0]) ∧
+    (lRun none (lInit 1) [.schedule 0 7 0, .scheduleBad 0 7 0, .commit 0, .select 0, .capture 0,
+      .invoke 0, .delete 0]).log = [(0, 0, 0)] ∧
+    lHasJobs (lRun none (lInit 1) [.schedule 0 7 0, .scheduleBad 0 7 0, .commit 0, .select 0, .capture 0,
+      .invoke 0, .delete 0]) none none = false := by
   decide
 
 -- non-vacuity of the hypotheses: an instance busy with a captured, not yet invoked call
